@@ -333,8 +333,17 @@ class CompanionEnv(Env):
         if "auth" in opts:
             return self.proto.exchange_auth(self.FrameType(opts["auth"]), {"_pd": b"x"},
                                             timeout=opts.get("timeout", 100))
-        return self.proto.exchange_opack(self.FrameType.E_OPACK, {"_i": "cmd", "_t": 2, "_c": {}},
-                                         timeout=opts.get("timeout", 100))
+        if not hasattr(self, "datas"):
+            self.datas = {}
+        src = self.datas.get(opts.get("reuse"))
+        if src is not None and opts.get("copy"):
+            data = dict(src)                   # a payload copied from an earlier one (carries its "_x")
+        elif src is not None:
+            data = src                         # the caller passes the very same dict again
+        else:
+            data = {"_i": "cmd", "_t": 2, "_c": {}}
+        self.datas[w] = data
+        return self.proto.exchange_opack(self.FrameType.E_OPACK, data, timeout=opts.get("timeout", 100))
 
     def value(self, r):
         return r.get("tag")
@@ -409,8 +418,22 @@ class HttpEnv(Env):
         self.conn.connection_made(FakeTransport(on_write, env))
 
     def call(self, w, opts):
-        return self.conn.send_and_receive("GET", "/r%d" % w, allow_error=opts.get("allow", False),
-                                          timeout=opts.get("timeout", 100))
+        return self.conn.send_and_receive("GET", "/r%d" % w, headers=self.headers_for(w, opts),
+                                          allow_error=opts.get("allow", False), timeout=opts.get("timeout", 100))
+
+    def headers_for(self, w, opts):
+        """the headers dict of the request; "reuse": j = the caller passes the dict object of request j again"""
+        if not hasattr(self, "hdrs"):
+            self.hdrs = {}
+        src = self.hdrs.get(opts.get("reuse"))
+        if src is not None and opts.get("copy"):
+            h = dict(src)
+        elif src is not None:
+            h = src
+        else:
+            h = {"X-Verif": "r%d" % w}
+        self.hdrs[w] = h
+        return h
 
     def value(self, r):
         cseq = r.headers.get("CSeq")
@@ -459,7 +482,8 @@ class RtspEnv(HttpEnv):
         await super().waiter(w, opts)
 
     def call(self, w, opts):
-        return self.session.exchange("OPTIONS", allow_error=opts.get("allow", False))
+        return self.session.exchange("OPTIONS", headers=self.headers_for(w, opts),
+                                     allow_error=opts.get("allow", False))
 
     def cseq_for(self, m):
         if m.get("for") is not None:
@@ -471,17 +495,24 @@ ENVS = {"mrp": MrpEnv, "companion": CompanionEnv, "http": HttpEnv, "rtsp": RtspE
 
 
 # ----------------------------------------------------------------------------- driver
-async def drive(transport, script):
-    env = ENVS[transport]()
-    env.script = script
-    await env.setup()
+async def drive_multi(transport, scripts, order):
+    """Run scripts[k] on its own, independent protocol/connection objects (all alive in this process and on
+    this loop at the same time); order = the sequence of object numbers whose next operation is performed.
+    Every object has its own log; an operation performed on another object shows up as an "idle" marker
+    (or as "timeout" when virtual time may pass), so that anything an object does while ANOTHER object is
+    being talked to is visible as such."""
+    envs = []
+    for sc in scripts:
+        env = ENVS[transport]()
+        env.script = sc
+        await env.setup()
+        del env.log[:]
+        envs.append(env)
     loop = asyncio.get_event_loop()
-    log = env.log
-    del log[:]
     stuck = False
 
-    def pending():
-        return [t for t in env.tasks.values() if not t.done()]
+    def pending(k=None):
+        return [t for j, e in enumerate(envs) if k is None or j == k for t in e.tasks.values() if not t.done()]
 
     async def fire():
         """advance virtual time to the next timer; False when there is none"""
@@ -491,34 +522,49 @@ async def drive(transport, script):
         await settle()
         return True
 
-    ops = [list(o) for o in script if o[0] != "listeners"]
-    i = 0
+    ops = [[list(o) for o in sc if o[0] != "listeners"] for sc in scripts]
+    pos = [0] * len(scripts)
+    order = list(order)
     seq = [0]
+    draining = False
 
-    def mark(op):
-        log.append(("op", seq[0], op))
+    def mark(k, op):
+        for j, e in enumerate(envs):
+            if j == k:
+                e.log.append(("op", seq[0], op))
+            else:
+                e.log.append(("op", seq[0], ["timeout"] if op[0] in ("timeout", "race") else ["idle"]))
         seq[0] += 1
 
     while True:
-        if i < len(ops):
-            op = ops[i]
+        while order and pos[order[0]] >= len(ops[order[0]]):
+            order.pop(0)
+        if order:
+            k = order.pop(0)
+            op = ops[k][pos[k]]
+            pos[k] += 1
+        elif any(pos[j] < len(ops[j]) for j in range(len(ops))):
+            k = min(j for j in range(len(ops)) if pos[j] < len(ops[j]))
+            op = ops[k][pos[k]]
+            pos[k] += 1
         elif pending():
-            op = ["timeout"]      # drain
+            k, op, draining = 0, ["timeout"], True
         else:
             break
-        i += 1
         # a little virtual time passes between operations, so that deadlines are distinct; a timer that
         # happens to fire meanwhile is an (unscripted) timeout operation of its own
-        n0 = len(log)
+        n0 = [len(e.log) for e in envs]
         await asyncio.sleep(0.001)
         await settle()
-        if len(log) > n0:
-            log.insert(n0, ("op", seq[0], ["timeout"]))
+        if any(len(e.log) > n for e, n in zip(envs, n0)):
+            for e, n in zip(envs, n0):
+                e.log.insert(n, ("op", seq[0], ["timeout"]))
             seq[0] += 1
+        env = envs[k]
         kind = op[0]
-        if kind == "timeout" and not pending():
+        if kind == "timeout" and not (pending() if draining else pending(k)):
             continue
-        mark(op)
+        mark(k, op)
         if kind == "req":
             w = op[1]
             env.tasks[w] = asyncio.ensure_future(env.waiter(w, op[2] if len(op) > 2 else {}))
@@ -535,8 +581,15 @@ async def drive(transport, script):
             env.send(op[1], op[2] if len(op) > 2 else {})
             await settle()
         elif kind == "timeout":
-            if not await fire():
-                stuck = True
+            # time passes until a request of THIS object ends (timers of other objects may fire on the way)
+            n_before = len(pending() if draining else pending(k))
+            while True:
+                if not await fire():
+                    stuck = True
+                    break
+                if len(pending() if draining else pending(k)) < n_before:
+                    break
+            if stuck:
                 break
         elif kind == "race":
             d = next_deadline(loop)
@@ -549,10 +602,47 @@ async def drive(transport, script):
                 await settle()
         else:
             raise ValueError(op)
-    hung = sorted(w for w, t in env.tasks.items() if not t.done())
-    return {"log": [list(x) for x in log], "wire": {str(k): v for k, v in env.wire.items()},
-            "hung": hung, "stuck": stuck,
-            "listeners": getattr(env, "listeners", None), "types": getattr(env, "types", None)}
+    return [{"log": [list(x) for x in env.log], "wire": {str(k): v for k, v in env.wire.items()},
+             "hung": sorted(w for w, t in env.tasks.items() if not t.done()), "stuck": stuck,
+             "listeners": getattr(env, "listeners", None), "types": getattr(env, "types", None)}
+            for env in envs]
+
+
+async def drive(transport, script):
+    return (await drive_multi(transport, [script], []))[0]
+
+
+def run_multi(transport, scripts, order):
+    return vloop.run(drive_multi, transport, scripts, order)
+
+
+def retag(script, off):
+    """the same script with every message tag shifted: the objects of a joint run use disjoint tags, so a
+    message of one object that turns up at another one is recognised"""
+    def fix(m):
+        m = dict(m)
+        m["tag"] += off
+        return m
+    out = []
+    for op in script:
+        if op[0] == "msg":
+            out.append(["msg", [fix(m) for m in op[1]]])
+        elif op[0] == "race":
+            out.append(["race", fix(op[1])])
+        else:
+            out.append(json.loads(json.dumps(op)))
+    return out
+
+
+def merge_order(kind, scripts, rng=None):
+    n = [len([o for o in sc if o[0] != "listeners"]) for sc in scripts]
+    if kind == "seq":                      # object 0 completely, then object 1, ...
+        return [k for k in range(len(n)) for _ in range(n[k])]
+    if kind == "rr":                       # strictly alternating
+        return [k for i in range(max(n)) for k in range(len(n)) if i < n[k]]
+    order = [k for k in range(len(n)) for _ in range(n[k])]
+    rng.shuffle(order)
+    return order
 
 
 def run_script(transport, script):
@@ -578,8 +668,10 @@ class Case:
         self.completion_order = []
         cur = None
         log = obs["log"]
+        self.settle_points = []   # lengths of the event list at which the loop had settled
         for j, e in enumerate(log):
             if e[0] == "op":
+                self.settle_points.append(len(self.events))
                 cur = e[2]
                 at = e[1]
                 if cur[0] == "req":
@@ -973,6 +1065,7 @@ def model_heard(case):
 
 def coq_case(case):
     ev = "[" + "; ".join(model_events(case)) + "]"
+    pts = common.clist(sorted(set(case.settle_points + [len(case.events)])), common.cnat)
     oc = model_outcomes(case)
     if oc is None:
         return None
@@ -980,7 +1073,7 @@ def coq_case(case):
     hs = "[" + "; ".join(model_heard(case)) + "]"
     if case.t == "mrp":
         types = sorted(mrp_reference_listeners(case))
-        return "(%s, %s, %s, %s)" % (ev, common.clist(types, common.cN), ocs, hs)
+        return "(%s, %s, %s, %s, %s)" % (ev, common.clist(types, common.cN), ocs, hs, pts)
     if case.t == "companion":
         first = None          # the value of the transaction counter before the first operation that uses one
         for e in case.events:
@@ -990,15 +1083,15 @@ def coq_case(case):
             if e[0] == "send":
                 first = case.obs["wire"].get("e%d" % e[1])
                 break
-        return "(%s, %s, %s, %s)" % (common.cN(first or 0), ev, ocs, hs)
-    return "(%s, %s)" % (ev, ocs)
+        return "(%s, %s, %s, %s, %s)" % (common.cN(first or 0), ev, ocs, hs, pts)
+    return "(%s, %s, %s)" % (ev, ocs, pts)
 
 
 COQ_TYPES = {
-    "mrp": ("list mev * list N * list mout * list mout", "mrp_check"),
-    "companion": ("N * list cev * list cout * list cout", "comp_check"),
-    "http": ("list hev * list hout", "http_check"),
-    "rtsp": ("list rtev * list hout", "rtsp_check"),
+    "mrp": ("list mev * list N * list mout * list mout * list nat", "mrp_check"),
+    "companion": ("N * list cev * list cout * list cout * list nat", "comp_check"),
+    "http": ("list hev * list hout * list nat", "http_check"),
+    "rtsp": ("list rtev * list hout * list nat", "rtsp_check"),
 }
 
 
@@ -1076,8 +1169,8 @@ def build(t, base, timeout_w=None, timeout_pos=None, unsol_pos=None, variant=0, 
             if t == "mrp" and variant % 4 == 3 and i == 0:
                 opts["typed"] = True
                 opts["type"] = 1 if variant % 8 == 7 else 2
-            if t == "mrp" and reuse is not None and i > 0 and not opts.get("typed") \
-                    and not (variant % 4 == 3):
+            if reuse is not None and i > 0 and not opts.get("typed") and not (variant % 4 == 3) \
+                    and not opts.get("fault"):
                 opts["reuse"] = 0 if reuse == "first" else i - 1      # the caller sends the same message again
                 if reuse == "copy":
                     opts["copy"] = True
@@ -1161,15 +1254,21 @@ def exhaustive_scripts(t, nmax):
                     for tp in range(qpos + 1, apos + 1):
                         for up in (tp, apos + 1):
                             out.append(build(t, base, timeout_w=w, timeout_pos=tp, unsol_pos=up, variant=up, xfor=w))
-            if t == "mrp" and n > 1:
-                # the caller re-sends the same message object (or a copy of an earlier message): while the
-                # earlier request is still outstanding, after it was answered, after it timed out
+            if n > 1 and t != "rtsp":
+                # the caller re-sends the same message object / passes the same payload or headers dict again (or
+                # a copy of the earlier one): while the earlier request is still outstanding, after it was
+                # answered, after it timed out
                 for reuse in ("first", "prev", "copy"):
                     out.append(build(t, base, reuse=reuse))
                     for w in range(n):
                         qpos, apos = base.index(("q", w)), base.index(("a", w))
                         for tp in range(qpos + 1, apos + 1):
                             out.append(build(t, base, timeout_w=w, timeout_pos=tp, reuse=reuse))
+            if n > 1 and t == "rtsp":
+                for reuse in ("first", "prev", "copy"):
+                    out.append(build(t, base, reuse=reuse))
+                    for tp in range(1, L + 1):
+                        out.append(build(t, base, timeout_pos=tp, reuse=reuse))
     # de-duplicate
     seen = set()
     res = []
@@ -1255,8 +1354,9 @@ def random_script(t, rng, nmax):
             if t == "mrp" and rng.random() < 0.25:
                 opts["typed"] = True
                 opts["type"] = rng.choice((1, 2))
-            elif t == "mrp" and issued and rng.random() < 0.35:
-                plain = [j for j in issued if not script_opts(script, j).get("typed")]
+            elif issued and rng.random() < 0.35:
+                plain = [j for j in issued if not script_opts(script, j).get("typed")
+                         and "auth" not in script_opts(script, j)]
                 if plain:
                     opts["reuse"] = rng.choice(plain)
                     if rng.random() < 0.4:
@@ -1380,6 +1480,24 @@ def evaluate(ctx, t, script, cases, origin):
     return case, errs
 
 
+def evaluate_joint(ctx, t, scripts, order, cases, origin):
+    """several independent objects of the transport alive at once; each is judged against its own script"""
+    obs = run_multi(t, scripts, order)
+    for k, sc in enumerate(scripts):
+        case = Case(t, sc, obs[k])
+        case.joint = {"scripts": scripts, "order": order, "object": k}
+        errs = oracle(case)
+        for key, what in errs:
+            ctx.violation(key, "object %d of %d alive in the process: %s" % (k, len(scripts), what),
+                          {"transport": t, "script": sc, "joint": {"scripts": scripts, "order": order, "object": k},
+                           "observed": {str(w): list(o) for w, o in case.outcome.items()},
+                           "listener_calls": case.listens})
+        ctx.case((t, "joint", k, json.dumps([scripts, order], sort_keys=True)),
+                 nontrivial=any(o[0] == "ret" for o in case.outcome.values()))
+        cases.setdefault(t, []).append((case, errs))
+    ctx.count("%s:%s" % (t, origin))
+
+
 def run(ctx):
     ctx.build_property()
     ctx.note("coq build done; running the implementation")
@@ -1397,7 +1515,10 @@ def run(ctx):
     cases = {}
     # corpus first
     for fname, d in common.load_corpus(ctx.pid):
-        evaluate(ctx, d["transport"], d["script"], cases, "corpus")
+        if "joint" in d:
+            evaluate_joint(ctx, d["transport"], d["joint"]["scripts"], d["joint"]["order"], cases, "corpus")
+        else:
+            evaluate(ctx, d["transport"], d["script"], cases, "corpus")
     for t in TRANSPORTS:
         first = True
         for j, s in enumerate(exhaustive_scripts(t, nmax)):
@@ -1408,6 +1529,19 @@ def run(ctx):
         if t == "mrp":
             for spec in LSETS:
                 evaluate(ctx, t, dispatch_probe(spec), cases, "listener-sets")
+        # two independent protocol/connection objects alive in the process: the same (or the next) script on
+        # both, one after the other and strictly alternating; the second object uses its own message tags
+        fam = exhaustive_scripts(t, 2)
+        if t == "companion":
+            fam = fam[::2]
+        for j, s in enumerate(fam):
+            for other in (s, fam[(j + 1) % len(fam)]):
+                pair = [s, retag(other, 1000)]
+                for kind in ("rr", "seq"):
+                    evaluate_joint(ctx, t, pair, merge_order(kind, pair), cases, "two-objects-" + kind)
+        for i in range(rnd_n // 8):
+            pair = [random_script(t, ctx.rng, 4), retag(random_script(t, ctx.rng, 4), 1000)]
+            evaluate_joint(ctx, t, pair, merge_order("random", pair, ctx.rng), cases, "two-objects-random")
         for i in range(rnd_n):
             s = random_script(t, ctx.rng, 5)
             evaluate(ctx, t, s, cases, "sample" if i == 0 else "random")
@@ -1463,12 +1597,16 @@ def run(ctx):
         for b in bad[:3]:
             case, term = index[name][b]
             ctx.tie_broken("correspondence:%s" % case.t, json.dumps(
-                {"transport": case.t, "script": case.script, "model_events": model_events(case),
+                {"transport": case.t, "script": case.script, "joint": getattr(case, "joint", None),
+                 "model_events": model_events(case),
                  "observed": {str(w): list(o) for w, o in case.outcome.items()}, "listener_calls": case.listens}))
             # 2.4: judge the disagreeing input by the extended oracle (a verified model delivers, the code does not)
             for key, what in lost_responses(case):
-                ctx.violation(key, what, {"transport": case.t, "script": case.script,
-                                          "observed": {str(w): list(o) for w, o in case.outcome.items()}})
+                rp = {"transport": case.t, "script": case.script,
+                      "observed": {str(w): list(o) for w, o in case.outcome.items()}}
+                if getattr(case, "joint", None):
+                    rp["joint"] = case.joint
+                ctx.violation(key, what, rp)
     ctx.trusted += [
         "hand-written models coq/C03/Model.v of MrpProtocol.send_and_receive/_receive/message_received, "
         "CompanionProtocol.exchange_*/frame_received + SharedData, HttpConnection.data_received/send_and_receive, "
@@ -1511,6 +1649,21 @@ def replay(ctx, path):
     if "script" not in r:
         print("nothing to replay against the implementation (tie-broken record): %s" % json.dumps(d.get("broken", d))[:2000])
         return 1
+    if "joint" in r:
+        j = r["joint"]
+        allobs = run_multi(r["transport"], j["scripts"], j["order"])
+        errs = []
+        for k, sc in enumerate(j["scripts"]):
+            case = Case(r["transport"], sc, allobs[k])
+            e = oracle(case)
+            if str(d.get("key", "")).endswith("response-not-delivered"):
+                e += lost_responses(case)
+            print("object %d: script=%s" % (k, json.dumps(sc)))
+            print("   outcomes=%s listener_calls=%s" % ({w: o for w, o in sorted(case.outcome.items())}, case.listens))
+            errs += [(key, "object %d: %s" % (k, what)) for key, what in e]
+        print("order=%s" % j["order"])
+        print("property-errors=%s" % errs)
+        return 1 if errs else 0
     obs = run_script(r["transport"], r["script"])
     case = Case(r["transport"], r["script"], obs)
     errs = oracle(case)
